@@ -9,6 +9,7 @@ import (
 	"slices"
 	"sort"
 	"strings"
+	"verif/internal/envrun"
 
 	"github.com/google/jsonschema-go/jsonschema"
 
@@ -262,4 +263,7 @@ func Run(r *ev.Run) {
 			}
 		}
 	})
+	if r.OnlyKey == "" || true {
+		envrun.Explore(r, "ENV", "c19env", "env", 16)
+	}
 }
